@@ -60,7 +60,7 @@ def n_op(i, c=1):
     return (Fraction(c), [(1, i), (0, i)])
 
 
-def custom_sets(rng, text, quick):
+def custom_sets(rng, text, quick, fixed=False):
     """candidate lists to try: (name, [polynomials]).  Whether a candidate is accepted is up to the library; rejected ones are skipped by it."""
     info = index_info(text)
     n = len(info)
@@ -90,6 +90,8 @@ def custom_sets(rng, text, quick):
                 if info[a][:2] == info[b][:2]]
         if docc:
             sets.append(("double-occupancy", [docc, N]))
+    if fixed:
+        return [x for x in sets if x[0] in ("N", "Sz", "N,Sz", "site-charges", "mode-charges", "2N-3")][:4]
     rng.shuffle(sets)
     keep = 3 if quick else 6
     # always keep the first two structural ones if present
@@ -251,7 +253,11 @@ def compare_oracle(a):
 
 def models(rng, quick):
     """(family, text without symm line, n modes, allow default)"""
-    out = []
+    out = [("fixed:hubbard-atom", "site A 1 2\naddCoulombS A 2 -1\nbeta 1\n", 2, 1.0),
+           ("fixed:two-site", "site A 1 2\nsite B 1 2\naddCoulombS A 2 -1\naddLevel B 0.5\naddHopping4 A B 1\nbeta 1\n", 4, 1.0),
+           ("fixed:atomic-limit", "site A 1 2\nsite B 1 2\naddCoulombS A 2 -1\naddCoulombS B 1 -0.5\nbeta 2\n", 4, 2.0),
+           ("fixed:spinless-chain", "site A 1 1\nsite B 1 1\nsite C 1 1\naddLevel A 0.5\nterm 2 1 1 A 0 0 0 B 0 0\nterm 2 1 1 B 0 0 0 A 0 0\n"
+            "term 2 0.5 1 B 0 0 0 C 0 0\nterm 2 0.5 1 C 0 0 0 B 0 0\nbeta 1\n", 3, 1.0)]
     fams = list(scen.FAMILIES) + [scen.pairing, scen.three_orbital_small]
     reps = 2 if quick else 6
     for _ in range(reps):
@@ -322,10 +328,22 @@ def run(chk):
             chk.violation(canonical_key, "%s = %r with the accepted integral of motion n_0 n_1 but %r with symmetries ignored" % (w[0], w[4], w[3]),
                           {"harness": "h_ed", "scenario_a": with_symm(ptext, "ignore"), "scenario_b": with_symm(ptext, "custom", pioms), "queries": q})
 
+    failures = {}     # kind -> [(size, fam, text, q, run, ref, worst, n)]
+
+    def note(fam, text, q, run_, ref, w, n):
+        qc = "G" if w[0].startswith("G_") else "average" if w[0].startswith("<") else "spectrum" if w[0].startswith("E[") else \
+            "susceptibility" if w[0].startswith("chi_") else "chi"
+        if canonical_key and nonuniform_accepted(text, run_[1], run_[2], run_[3].nsym, n):
+            chk.violation(canonical_key, "%s: %s differs by %.3g with partition %s (accepted non-uniformly shifting integral of motion)" % (fam, w[0], w[1], run_[0]),
+                          {"harness": "h_ed", "scenario": with_symm(text, run_[1], run_[2]), "queries": q})
+            return
+        kind = ("across-partitions " if ref else "against-oracle ") + qc
+        failures.setdefault(kind, []).append((0 if fam.startswith("fixed:") else 1, len(text), fam, text, q, run_, ref, w, n))
+
     for (fam, text, n, beta) in models(rng, quick):
         q = queries(rng, n, beta, quick)
         runs = []
-        plist = [("ignore", "ignore", ())] + [("default", "default", ())] + [("custom:" + nm, "custom", io) for (nm, io) in custom_sets(rng, text, quick)]
+        plist = [("ignore", "ignore", ())] + [("default", "default", ())] + [("custom:" + nm, "custom", io) for (nm, io) in custom_sets(rng, text, quick, fam.startswith("fixed:"))]
         with cf.ThreadPoolExecutor(max_workers=6) as ex:
             results = list(ex.map(lambda p: run_partition(text, p[1], p[2], q), plist))
         for (pname, mode, ioms), r in zip(plist, results):
@@ -359,14 +377,18 @@ def run(chk):
                 stats["oracle_comparisons"] += 1
                 w = compare_oracle(o)
                 if w:
-                    report(chk, canonical_key, fam, text, q, (pname, mode, ioms, o), None, w, n)
+                    note(fam, text, q, (pname, mode, ioms, o), None, w, n)
         # --- across partitions: everything against the one-block run (and thereby against each other)
         if runs and runs[0][0] == "ignore":
             for other in runs[1:]:
                 stats["pair_comparisons"] += 1
                 w = compare(runs[0][3], other[3])
                 if w:
-                    report(chk, canonical_key, fam, text, q, other, runs[0], w, n)
+                    note(fam, text, q, other, runs[0], w, n)
+    for kind, lst in sorted(failures.items()):
+        lst.sort(key=lambda x: (x[0], x[1], x[3], x[5][0]))
+        _, _, fam, text, q, run_, ref, w, n = lst[0]
+        report(chk, kind, len(lst), fam, text, q, run_, ref, w, n)
     chk.extra["stats"] = stats
     chk.rule = ("models: every family of tools/scen.py (Hubbard atom, two-site incl. spin-flip hopping, Anderson, free degenerate, atomic limit, Kanamori, "
                 "exchange, pairing, spinless) and heterogeneous lattices of the C07 generator with <= 4 modes, beta in {0.5, 1, 2, 4}; each under ignore, "
@@ -382,13 +404,9 @@ def nonuniform_accepted(text, mode, ioms, nsym, n):
     return any(not C07.uniform_shift([(c, tuple(m)) for (c, m) in q], n) for q in ioms)
 
 
-def report(chk, canonical_key, fam, text, q, run, ref, w, n):
+def report(chk, kind, count, fam, text, q, run, ref, w, n):
     pname, mode, ioms, o = run
     name, d, t, x, y = w
-    if canonical_key and nonuniform_accepted(text, mode, ioms, o.nsym, n):
-        chk.violation(canonical_key, "%s: %s differs by %.3g with partition %s (accepted non-uniformly shifting integral of motion)" % (fam, name, d, pname),
-                      {"harness": "h_ed", "scenario": with_symm(text, mode, ioms), "queries": q})
-        return
     what = "%s: %s = %r with partition %s but %r %s (|diff| %.3g > tol %.3g)" % (
         fam, name, x, ref[0] if ref else pname, y, ("with partition " + pname) if ref else "from the full-space oracle", d, t)
     if ref:
@@ -425,6 +443,7 @@ def report(chk, canonical_key, fam, text, q, run, ref, w, n):
             if ok:
                 lines, changed = t2, True
                 break
+    what += " [%s; %d comparisons fail this way]" % (kind, count)
     key = "partition-dependence: %s | %s%s" % (" | ".join(lines), "symm " + mode + ("" if mode != "custom" else " " + "; ".join(iom_line(i) for i in ioms)),
                                               " vs symm ignore" if ref else " vs oracle")
     chk.violation(key, what, {"harness": "h_ed", "scenario": with_symm("\n".join(lines) + "\n", mode, ioms),
